@@ -69,7 +69,8 @@ def gen_sources(ctx, rng):
         return "mixed", s["text"], {}
     if r < 0.7:
         ts = [S.gen_table(rng, q, max_cols=6, clauses=True) for q in range(rng.randint(1, 3))]
-        return "tables", finish_script([render(S.table_tokens(t)) for t in ts]), {}
+        layout = rng.choice([None, {"case": "lower"}, {"case": "random", "ws": True}])     # keyword case must not leak into the shape either
+        return "tables", finish_script([render(S.table_tokens(t), layout, rng) for t in ts]), {}
     h = c04.gen_history(rng)
     return "history", "\n".join(h["stmts"]) + "\n", {}
 
